@@ -606,6 +606,7 @@ func indexExprs(sqlText string) idxParsed {
 	if sqlText == "" {
 		return p
 	}
+	sqlText = stripComments(sqlText) // comments are not part of an expression or of the predicate
 	on := findKeyword(sqlText, "ON", 0)
 	if on == -1 {
 		return p
